@@ -2062,6 +2062,49 @@ package decimal128
 //@ assert after "rem = uint128{rem64, 0}": TK * PE == NV0 && PE == pw10(exp)
 //@ props C03 C15 C20
 
+// QuoRem (C03): QuoRemWithMode under DefaultRoundingMode.
+//@ func Decimal.QuoRem
+//@ uses rssteps=1,4,19 rsmono=0,1,36 timeout=60
+//@ returns (q, r)
+//@ logical Vd real, Vo real, Q int, VQ real, VR real
+//@ requires !special(d) ==> Vd >= 0 && rs(Vd, bexp(d)) == coef(d)
+//@ requires !special(o) ==> Vo >= 0 && rs(Vo, bexp(o)) == coef(o)
+//@ mention rs(Vd, bexp(o)) + rs(Vo, bexp(d))
+//@ define ED = bexp(d)
+//@ define EO = bexp(o)
+//@ define CD = coef(d)
+//@ define CO = coef(o)
+//@ define BOTH = (!special(d) && !special(o) && coef(o) != 0 && coef(d) != 0)
+//@ requires DefaultRoundingMode <= 5
+//@ define XA = (CD * pw10(ED - EO))
+//@ define YB = (CO * pw10(EO - ED))
+//@ requires BOTH ==> Q >= 0 && VQ >= 0 && rs(VQ, 6176) == real(Q)
+//@ requires BOTH && ED >= EO ==> Q * CO <= XA && XA < (Q + 1) * CO
+//@ requires BOTH && ED < EO ==> Q * YB <= CD && CD < (Q + 1) * YB
+//@ requires BOTH ==> VR >= 0
+//@ requires BOTH && ED >= EO ==> rs(VR, EO) == real(XA - Q * CO)
+//@ requires BOTH && ED < EO ==> rs(VR, ED) == real(CD - Q * YB)
+//@ ensures BOTH && !(ED < EO && Vd < Vo) ==> sign(q) == (sign(d) != sign(o)) && !isnan(q) && !special(r) && sign(r) == sign(d)
+//@ ensures BOTH && !(ED < EO && Vd < Vo) && isinf(q) ==> Ovf(DefaultRoundingMode, sign(q), rs(VQ, 12287))
+//@ ensures BOTH && !(ED < EO && Vd < Vo) && !special(q) ==> (Q == 0 && coef(q) == 0) || (Q >= 1 && RndOK(DefaultRoundingMode, sign(q), rs(VQ, bexp(q)), coef(q), bexp(q)))
+//@ ensures BOTH && ED >= EO ==> (coef(r) == 0 <==> XA == Q * CO) && (coef(r) != 0 ==> bexp(r) == EO && coef(r) == XA - Q * CO)
+//@ ensures BOTH && ED < EO && !(Vd < Vo) ==> (coef(r) == 0 <==> CD == Q * YB) && (coef(r) != 0 ==> bexp(r) == ED && coef(r) == CD - Q * YB)
+//@ ensures isnan(d) ==> q == d && r == d
+//@ ensures !isnan(d) && isnan(o) ==> q == o && r == o
+//@ ensures isinf(d) && isinf(o) ==> isnan(q) && q == r && !sign(q) && hi(q) == 0x7c00000000000000
+//@    && lo(q) == payloadOpQuoRem + 256*ite(sign(d), payloadValNegInfinite, payloadValPosInfinite) + 65536*ite(sign(o), payloadValNegInfinite, payloadValPosInfinite)
+//@ ensures isinf(d) && !special(o) ==> isinf(q) && sign(q) == (sign(d) != sign(o)) && isnan(r) && !sign(r)
+//@    && lo(r) == payloadOpQuoRem + 256*ite(sign(d), payloadValNegInfinite, payloadValPosInfinite)
+//@       + 65536*ite(coef(o) == 0, ite(sign(o), payloadValNegZero, payloadValPosZero), ite(sign(o), payloadValNegFinite, payloadValPosFinite))
+//@ ensures !special(d) && isinf(o) ==> !special(q) && coef(q) == 0 && bexp(q) == 0 && sign(q) == (sign(d) != sign(o)) && r == d
+//@ ensures !special(d) && !special(o) && coef(o) == 0 && coef(d) == 0 ==> isnan(q) && q == r && !sign(q)
+//@    && lo(q) == payloadOpQuoRem + 256*ite(sign(d), payloadValNegZero, payloadValPosZero) + 65536*ite(sign(o), payloadValNegZero, payloadValPosZero)
+//@ ensures !special(d) && !special(o) && coef(o) == 0 && coef(d) != 0 ==> isinf(q) && sign(q) == (sign(d) != sign(o)) && isnan(r) && !sign(r)
+//@    && lo(r) == payloadOpQuoRem + 256*ite(sign(d), payloadValNegFinite, payloadValPosFinite) + 65536*ite(sign(o), payloadValNegZero, payloadValPosZero)
+//@ ensures !special(d) && !special(o) && coef(o) != 0 && coef(d) == 0 ==> !special(q) && coef(q) == 0 && sign(q) == (sign(d) != sign(o)) && !special(r) && coef(r) == 0 && sign(r) == sign(d)
+//@ ensures !special(d) && !special(o) && coef(o) != 0 && coef(d) != 0 && bexp(d) < bexp(o) && Vd < Vo ==> !special(q) && coef(q) == 0 && bexp(q) == 0 && sign(q) == (sign(d) != sign(o)) && r == d
+//@ props C03 C15 C20
+
 // ---------------------------------------------------------------------------
 // PowWithMode (C18), partial: the shortcut ladder up to the infinite-exponent table. Everything after
 // "oSig, oExp := o.decompose()" (zero and infinite bases, parity of the exponent for negative bases,
